@@ -199,6 +199,19 @@ CLAIMED.update({
         note="Trusted: the sample values and the harness's frame splitter; equality of attributes is by code and payload."),
 })
 
+CLAIMED.update({
+    "C18": dict(
+        category="exploration", design_ref="DESIGN.md 5 (C18)",
+        technique="TLA+ Subscribe.tla (session threads and subscriber at shard-lock granularity; invariants Reconstructs and "
+                  "LastEventIsCurrent checked by TLC over all interleavings, deviation LoadBeforeLock shown to violate them); random "
+                  "complete interleavings replayed on the real TableManager with real OS threads parked at cfg-guarded scheduling "
+                  "points before every shard-lock acquisition; per-step RIB comparison and final fold-vs-RIB comparison",
+        text="Exhaustive in the model for 5 configurations (2 session threads x 1-3 calls, with/without session end, 1-2 subscribers, "
+             "2 shards, 3 keys, pre/post-policy views); 300 (2000) complete interleavings replayed on the real code.",
+        note="Trusted: the placement of the scheduling points (a change confined inside one critical section is seen only through "
+             "the final comparison). Peer-up/peer-down pairing in bmp.rs is not covered."),
+})
+
 NOT_YET = {}
 
 HOOK_COMMITS = []
